@@ -11,6 +11,9 @@ from ..core.flow import (call_name, calls_in, node_calls, node_binds, node_exprs
 from ..core.loader import AnalysisError, short, own_nodes
 from ..core.report import where
 
+TECHNIQUE = 'CFG must-pass-through (dominance) analysis; template-string abstract interpretation of the opcode dispatch chains; table comparison against an EVM reference'
+LEVEL_TEXT = "Decides three necessary structural clauses of C01 on the current source: (a) every emission of an optimized block is reachable only after the built-in comparison said 'equal' or after the fallback re-binding; (b) opcode->operator->opcode round trip is the identity and injective on the optimizable vocabulary; (c) the stack-arity table equals the EVM reference. It does not decide equivalence of any concrete block."
+
 EXPLANATION = ("Static must-pass-through analysis on the CFG of every function of gasol_asm.py that obtains an "
                "optimized block: each container insertion / return of that block is reachable only after "
                "compare_asm_block_asm_format(old, new) said 'equal' or the variable was re-bound to the input block; "
